@@ -27,6 +27,8 @@ pub(crate) struct LimModel {
     limit: u32,
     gr: bool,
     ops: Vec<Op>,
+    /// a global import policy rejects prefix n<k> (it is stored, filtered, and still counts as received)
+    reject: Option<u8>,
 }
 
 pub(crate) struct Sys {
@@ -50,7 +52,7 @@ fn rib_prefixes(d: &Daemon) -> BTreeSet<String> {
 impl Model for LimModel {
     type Sys = Sys;
     fn name(&self) -> String {
-        format!("c15-live-limit{}{}", self.limit, if self.gr { "-gr" } else { "" })
+        format!("c15-live-limit{}{}{}", self.limit, if self.gr { "-gr" } else { "" }, if self.reject.is_some() { "-import-reject" } else { "" })
     }
     fn n_ops(&self) -> usize {
         self.ops.len()
@@ -81,6 +83,14 @@ impl Model for LimModel {
             }
             d.global.write().await.add_peer(p, None).expect("add_peer");
         });
+        if let Some(k) = self.reject {
+            let mut pt = table::PolicyTable::new();
+            pt.add_defined_set(table::DefinedSetConfig::Prefix { name: "R".into(), prefixes: vec![table::PrefixConfig { ip_prefix: format!("{}", net(k)), mask_length_min: 24, mask_length_max: 24 }] }).expect("set");
+            pt.add_statement("s", vec![table::ConditionConfig::PrefixSet("R".into(), table::MatchOption::Any)], Some(table::Disposition::Reject), table::Actions::default()).expect("stmt");
+            pt.add_policy("p", vec!["s".into()]).expect("policy");
+            let a = pt.build_assignment(None, "global", table::PolicyDirection::Import, table::Disposition::Accept, vec!["p".into()]).expect("assignment");
+            d.tables.import_policy.store(Some(a));
+        }
         Sys { rt, d, conn: None, fresh: BTreeSet::new(), sessions: 0, broken: BTreeSet::new(), dead: false }
     }
     fn step(&self, sys: &mut Sys, op: usize, out: &mut Vec<(String, String)>) -> bool {
@@ -220,7 +230,8 @@ impl Model for LimModel {
                 let sess = sys.fresh.len() as u64;
                 if v > (1 << 63) {
                     cur.push(("C15/live/limit-counter-underflow".into(), format!("{}: the session's prefix-limit counter wrapped below zero ({v:#x})", self.op_name(op))));
-                } else if v != all && v != sess {
+                } else if v != all && v != sess && !(self.reject.is_some() && (v + 1 == all || v + 1 == sess)) {
+                    // (with a rejecting import policy, counting received or accepted prefixes are both accepted)
                     cur.push((format!("C15/live/limit-counter/{kind}/{}", if v > all.max(sess) { "overcount" } else { "undercount" }), format!("{}: counter {v}, the peer has {all} prefixes in the RIB, {sess} announced by this session (maximum {max})", self.op_name(op))));
                 }
             } else {
@@ -230,8 +241,10 @@ impl Model for LimModel {
         // received / accepted statistics against a recount
         let stats = sys.d.tables.collect_peer_stats(&[PEER]);
         let (rx, acc) = stats.get(&PEER).and_then(|m| m.get(&F)).map(|s| (s.received, s.accepted)).unwrap_or((0, 0));
-        let n = rib_prefixes(&sys.d).len() as u64;
-        if rx != n || acc != n {
+        let prefixes = rib_prefixes(&sys.d);
+        let n = prefixes.len() as u64;
+        let n_acc = n - self.reject.map(|k| prefixes.contains(&format!("{}", net(k))) as u64).unwrap_or(0);
+        if rx != n || acc != n_acc {
             cur.push((format!("C15/live/peer-stats/{kind}"), format!("{}: received={rx} accepted={acc}, but the peer has {n} prefixes in the RIB", self.op_name(op))));
         }
         let mut now = BTreeSet::new();
@@ -284,7 +297,12 @@ fn models() -> Vec<LimModel> {
         v.extend([Op::Drop, Op::Eor, Op::GrTimer]);
         v
     };
-    vec![LimModel { limit: 1, gr: true, ops: ops(2) }, LimModel { limit: 2, gr: true, ops: ops(3) }, LimModel { limit: 1, gr: false, ops: ops(2) }]
+    vec![
+        LimModel { limit: 1, gr: true, ops: ops(2), reject: None },
+        LimModel { limit: 2, gr: true, ops: ops(3), reject: None },
+        LimModel { limit: 1, gr: false, ops: ops(2), reject: None },
+        LimModel { limit: 2, gr: false, ops: ops(3), reject: Some(1) },
+    ]
 }
 
 pub(crate) fn run(replay: Option<&str>) -> Report {
